@@ -76,9 +76,9 @@ theorem C09_terminates (s s' : St) (as : List Act) (hr : Reachable s) (ht : s.tr
 (the close error `readLoop` left with, or EOF if the peer had reset the stream), never success; a write — the
 not-established error once the association is closed or shutting down; a blocked blocking-write that is released —
 re-tests the state (and then fails as before) or hits its deadline; `AcceptStream` — EOF; `Shutdown` begun after the
-end — its non-established error. **Deviation from the literal statement, mirrored as it is:** a `Shutdown` that is
-already waiting returns `nil` as soon as `closeWriteLoopCh` is closed — also when that happened because of Close, Abort
-or a transport failure rather than because the shutdown sequence completed (`C09_shutdown_nil_witness`). -/
+end — its non-established error; a `Shutdown` that is already waiting — `nil` ONLY if the peer's SHUTDOWN-ACK or
+SHUTDOWN-COMPLETE had been handled (`sdAcked`), otherwise the shutdown-incomplete error (or the context's error).
+See `C09_shutdown_interrupted`. -/
 theorem C09_results (s s' : St) (i arm : Nat) (c : Caller) (k : Kind) (r : Res)
     (hc : s.callers[i]? = some c) (h : step choreoOfFacts s (.call i arm) = some s') (hf : s'.callers[i]? = some (.fin k r)) :
     match c with
@@ -87,12 +87,31 @@ theorem C09_results (s s' : St) (i arm : Nat) (c : Caller) (k : Kind) (r : Res)
     | .wrWait => r = .err .ctx
     | .accWait => r = .eof
     | .shBegin => r = .err .shutdownNonEstablished
-    | .shWait => (r = .nil ∧ s.cw = true) ∨ r = .err .ctx
+    | .shWait => (r = .nil ∧ s.cw = true ∧ s.sdAcked = true) ∨ (r = .err .shutdownIncomplete ∧ s.cw = true ∧ s.sdAcked = false) ∨ r = .err .ctx
     | .cl _ => r = .ok
     | .ab _ _ => r = .ok
     | _ => False := by
   rw [C09_choreography_matches_code] at h
   exact call_result s s' i arm c k r hc h hf
+
+/-- **A Shutdown that a teardown cuts short returns an error.** The completion flag is raised by nothing but the handling
+of the peer's SHUTDOWN-ACK or SHUTDOWN-COMPLETE; a waiting `Shutdown` that returns while the flag is down — i.e. whenever
+Close, Abort, an inbound ABORT or a transport failure ended the association before the peer acknowledged the SHUTDOWN —
+returns an error (shutdown-incomplete, or the context's), never `nil`. -/
+theorem C09_shutdown_interrupted :
+    (∀ s s' a, step choreoOfFacts s a = some s' → s'.sdAcked = true →
+      s.sdAcked = true ∨ (a = .rlHandle ∧ (s.rl = .handling .shutdownAck ∨ s.rl = .handling .shutdownComplete))) ∧
+    (∀ s s' i arm r, s.callers[i]? = some .shWait → s.sdAcked = false → step choreoOfFacts s (.call i arm) = some s' →
+      s'.callers[i]? = some (.fin .sh r) → r.isFailure = true) := by
+  rw [C09_choreography_matches_code]
+  refine ⟨fun s s' a h hs => sdAcked_only_by_peer s s' a h hs, ?_⟩
+  intro s s' i arm r hc hsa h hf
+  have := call_result s s' i arm _ .sh r hc h hf
+  simp only at this
+  rcases this with ⟨_, _, h1⟩ | ⟨rfl, _⟩ | rfl
+  · rw [hsa] at h1; cases h1
+  · rfl
+  · rfl
 
 /-- the constructor: once a teardown has closed `readLoopCloseCh` it returns "closed before connected", a cancelled
 context makes it run `Close()` and return the context's error; only the hand-over from `completeHandshake` yields success
@@ -104,15 +123,21 @@ theorem C09_results_constructor (s : St) (hr : Reachable s) (r : Res) (h : s.cn 
   · exact Or.inr (hi.cnRc r h hh)
   · exact Or.inl ⟨rfl, (hi.cnHs r h hh).1⟩
 
-/-- the literal "error or EOF" fails for a waiting `Shutdown`: two callers — a reader and a `Shutdown` — on an established
-association, the transport fails; the reader gets the transport error, `Shutdown` returns nil although no shutdown
-sequence ever ran -/
-theorem C09_shutdown_nil_witness :
+/-- regression for the former finding K09-shutdown-nil (fixed in /repo 52b27be): two callers — a reader and a `Shutdown` —
+on an established association, the transport fails; the reader gets the transport error and `Shutdown`, whose sequence
+never ran, now gets the shutdown-incomplete error instead of nil … -/
+theorem C09_shutdown_error_regression :
     (run choreoOfFacts { fuel := 9, callers := [.idle (.rd 1), .idle .sh] }
       [.envPacket (.hsFinal false), .rlHandle, .rlCH 0, .envStart 0, .envStart 1, .call 1 0, .envReadFail,
        .rlReadErr, .rlDefer, .call 1 0, .rlDefer, .rlDefer, .rlDefer, .call 0 0]).map (·.callers) =
-    some [.fin (.rd 1) (.err .transport), .fin .sh .nil] := by
+    some [.fin (.rd 1) (.err .transport), .fin .sh (.err .shutdownIncomplete)] := by
   rw [C09_choreography_matches_code]; decide
+
+/-- … while a shutdown the peer has acknowledged still ends with nil (non-vacuity of the nil branch) -/
+example :
+    (run Choreo.expected { fuel := 9, callers := [.idle .sh] }
+      [.envPacket (.hsFinal false), .rlHandle, .rlCH 0, .envStart 0, .call 0 0, .envPacket .shutdownAck, .rlHandle,
+       .envPacket .shutdownComplete, .rlHandle, .call 0 0]).map (·.callers) = some [.fin .sh .nil] := by decide
 
 /-- **(d) No write after close.** In every reachable state at most ONE `netConn.Write` has been issued after
 `netConn.Close()` (the one that was in flight or next in `writeLoop`'s batch), and after it `writeLoop` is on its exit
